@@ -523,6 +523,58 @@ func notifFromParamOrClone(v ssa.Value, fn *ssa.Function) bool {
 				v = x.Call.Args[0]
 				continue
 			}
+			// a helper of the package (withDuplicates(n, dup)) every result of which is one of its own parameters
+			// or a clone of it, applied to an operand that qualifies
+			if g := staticCallee(&x.Call); g != nil && pkgPathOf(g) == pkgPathOf(fn) && !isExportedFn(g) && g.Parent() == nil && len(g.Blocks) > 0 && g != fn {
+				var pidx = -1
+				okAll, nret := true, 0
+				instrs(g, func(in ssa.Instruction) {
+					ret, isRet := in.(*ssa.Return)
+					if !isRet || len(ret.Results) == 0 {
+						return
+					}
+					nret++
+					for _, sv := range valueSources(ret.Results[0], 0, map[ssa.Value]bool{}) {
+						r := sv
+						for k := 0; k < 8; k++ {
+							switch y := r.(type) {
+							case *ssa.Extract:
+								r = y.Tuple
+								continue
+							case *ssa.TypeAssert:
+								r = y.X
+								continue
+							case *ssa.MakeInterface:
+								r = y.X
+								continue
+							case *ssa.Call:
+								if calleeName(&y.Call) == "google.golang.org/protobuf/proto.Clone" {
+									r = y.Call.Args[0]
+									continue
+								}
+							}
+							break
+						}
+						pp, isP := r.(*ssa.Parameter)
+						if !isP || pp.Parent() != g {
+							okAll = false
+							continue
+						}
+						for i, q := range g.Params {
+							if q == pp {
+								if pidx >= 0 && pidx != i {
+									okAll = false
+								}
+								pidx = i
+							}
+						}
+					}
+				})
+				if okAll && nret > 0 && pidx >= 0 && pidx < len(x.Call.Args) {
+					v = x.Call.Args[pidx]
+					continue
+				}
+			}
 			return false
 		case *ssa.Phi:
 			for _, e := range x.Edges {
